@@ -19,7 +19,7 @@ From SC Require Import Base.Prelude Gen.Units Traits.Str Traits.StrProofs
   Traits.ModeTrait Traits.ModeTraitProofs Traits.EnterLeave Traits.EnterLeaveProofs Traits.Meter Traits.MeterProofs
   Traits.Publication Traits.PublicationProofs Traits.Options Traits.OptionsProofs Traits.Store Traits.StoreProofs
   Traits.VendingStore Traits.VendingStoreProofs Traits.FanMask Traits.FanMaskProofs.
-From SC Require Import Msg.Msg Msg.Schema Msg.Path Masks.Get Traits.MeterMask Traits.MeterMaskProofs Traits.StockMask Traits.StockMaskProofs Traits.PubStore Traits.PubStoreProofs.
+From SC Require Import Msg.Msg Msg.Schema Msg.Path Masks.Get Traits.MeterMask Traits.MeterMaskProofs Traits.StockMask Traits.StockMaskProofs Traits.PubStore Traits.PubStoreProofs Traits.TraitPull Traits.TraitPullProofs.
 From Coq Require Import QArith.
 Local Open Scope string_scope.
 Local Open Scope Z_scope.
@@ -627,4 +627,50 @@ Example C20_nonvacuous_publication_store :
   map fst (pubs_run_c h [] [(PCreate (mkPub "b" "" "x" "" None None), [], 1); (PCreate (mkPub "" "" "y" "" None None), [""; "b"; "a-gen"], 2);
                             (PUpdate (mkPub "b" "" "z" "" None None) (Some pm_only_body) "", [], 3);
                             (PDelete "b" "" false, [], 4); (PCreate (mkPub "0" "" "" "" None None), [], 5)]) = ["0"; "a-gen"].
+Proof. vm_compute. reflexivity. Qed.
+
+(* ================= Pull / stream methods of the one-value models (enter/leave, meter, fan speed) ================= *)
+(* the stream is Resource/Pull.v's pull_value over the events the model's operations publish; for every model step
+   function, seed view, initial value and history *)
+
+(* EXACT: the seed (unless updates_only) followed by the getter value after every accepted operation, nothing else *)
+Theorem C20_pull_stream_exact : forall (S Op : Type) (step : S -> Op -> option S) (seed_view : S -> S) uo s0 t0 ops,
+  tp_stream step seed_view None uo s0 t0 ops = ((if uo then [] else [(seed_view s0, t0)]) ++ tp_trace step s0 ops)%list.
+Proof. exact stream_exact. Qed.
+Print Assumptions C20_pull_stream_exact.
+
+(* FOLD: the last value the subscriber holds is the model's getter after the history *)
+Theorem C20_pull_fold_is_getter : forall (S Op : Type) (step : S -> Op -> option S) (seed_view : S -> S) s0 t0 ops,
+  tp_last_value (tp_stream step seed_view None true s0 t0 ops) s0 = tp_run step s0 ops /\
+  (tp_trace step s0 ops <> [] -> tp_last_value (tp_stream step seed_view None false s0 t0 ops) s0 = tp_run step s0 ops) /\
+  (tp_trace step s0 ops = [] -> tp_stream step seed_view None false s0 t0 ops = [(seed_view s0, t0)]).
+Proof.
+  intros. split; [apply stream_fold_updates_only|]. split; [apply stream_fold_seeded|apply stream_seed_only].
+Qed.
+Print Assumptions C20_pull_fold_is_getter.
+
+(* ... after each operation: the stream of a longer history extends the stream of the shorter one by the getter
+   values of the additional accepted operations *)
+Theorem C20_pull_stream_prefix : forall (S Op : Type) (step : S -> Op -> option S) (seed_view : S -> S) uo s0 t0 a b,
+  tp_stream step seed_view None uo s0 t0 (a ++ b)%list = (tp_stream step seed_view None uo s0 t0 a ++ tp_trace step (tp_run step s0 a) b)%list.
+Proof. exact stream_prefix. Qed.
+Print Assumptions C20_pull_stream_prefix.
+
+(* with a message equivalence that is equality on the model's values (fan speed): repeated values are not
+   delivered and the last value held is still the getter *)
+Theorem C20_pull_fold_with_equality_equivalence : forall (S Op : Type) (step : S -> Op -> option S) (eqb : S -> S -> bool),
+  (forall a b, eqb a b = true <-> a = b) -> forall uo s0 t0 ops,
+  tp_last_value (tp_stream step (fun s => s) (Some (eq_equiv S eqb)) uo s0 t0 ops) s0 = tp_run step s0 ops.
+Proof. exact stream_fold_equality. Qed.
+Print Assumptions C20_pull_fold_with_equality_equivalence.
+
+(* enter/leave instance: the model getter of the stream theorem is el_run (C20_enterleave_sequences / _counts apply) *)
+Theorem C20_pull_enterleave_getter : forall ops s, tp_run el_pull_step s ops = el_run s (map fst ops).
+Proof. exact el_run_is_tp_run. Qed.
+Print Assumptions C20_pull_enterleave_getter.
+
+Example C20_nonvacuous_pull :
+  tp_stream mm_pull_step (fun m => m) None false (mkMM 0 (Some (5, 0)) (Some (5, 0))) 5
+    [(MMRecord 7 9, 9); (MMUpdate (Some [["bogus"]]) (mkMM 1 None None), 10); (MMReset 12, 12)]
+  = [(mkMM 0 (Some (5, 0)) (Some (5, 0)), 5); (mkMM 7 (Some (5, 0)) (Some (9, 0)), 9); (mkMM 0 (Some (12, 0)) (Some (12, 0)), 12)].
 Proof. vm_compute. reflexivity. Qed.
